@@ -23,7 +23,7 @@ package jobconfig
 //@   loop 2 invariant additionalLabels[LabelKeyJobConfigUID] == string(rjc.UID)
 //@   loop 2 invariant forall k string :: !(k in additionalLabels) ==> ((k in desiredLabels) == (k in rjc.Spec.Template.Labels) && desiredLabels[k] == rjc.Spec.Template.Labels[k])
 //@   loop 2 invariant forall k string :: (k in additionalLabels) ==> (visited(k) ==> ((k in desiredLabels) && desiredLabels[k] == additionalLabels[k]))
-//@   ensures [C02] uid-label-always-the-jobconfigs: (LabelKeyJobConfigUID in result) && result[LabelKeyJobConfigUID] == string(rjc.UID)
+//@   ensures [C02,C17] uid-label-always-the-jobconfigs: (LabelKeyJobConfigUID in result) && result[LabelKeyJobConfigUID] == string(rjc.UID)
 //@   ensures [C02] template-labels-otherwise: forall k string :: k != LabelKeyJobConfigUID ==> ((k in result) == (k in rjc.Spec.Template.Labels) && result[k] == rjc.Spec.Template.Labels[k])
 //@   ensures [C02] fresh-map: result != nil && fresh(result)
 
@@ -49,7 +49,7 @@ package jobconfig
 //@   modifies clock
 //@   ensures [C02] result0 != nil <==> result1 == nil
 //@   ensures [C02] name-and-namespace: result1 == nil && !createTime.IsZero() ==> result0.Name == jobNameFor(jobConfig.Name, createTime.Unix()) && result0.Namespace == jobConfig.Namespace
-//@   ensures [C02] labelled-with-exactly-this-jobconfig: result1 == nil ==> (LabelKeyJobConfigUID in result0.Labels) && result0.Labels[LabelKeyJobConfigUID] == string(jobConfig.UID)
+//@   ensures [C02,C17] labelled-with-exactly-this-jobconfig: result1 == nil ==> (LabelKeyJobConfigUID in result0.Labels) && result0.Labels[LabelKeyJobConfigUID] == string(jobConfig.UID)
 //@   ensures [C02] records-schedule-time: result1 == nil && jobType == execution.JobTypeScheduled ==>
 //@        (AnnotationKeyScheduleTime in result0.Annotations) && result0.Annotations[AnnotationKeyScheduleTime] == strconv.Itoa(createTime.Unix())
 //@   ensures [C02] owned-by-exactly-this-jobconfig: result1 == nil ==> len(result0.OwnerReferences) == 1 && result0.OwnerReferences[0].Controller != nil && *result0.OwnerReferences[0].Controller
